@@ -107,3 +107,5 @@ def correspond(seed, tier):
 
 TRUSTED = ["lean/PystogVerif/Model/Stog.lean (postMerge) is a hand-written model of the tail of StoG.merge_data: tied to /repo only by "
            "the correspondence run over all present/absent option subsets"]
+
+DRIVERS = ["drvm"]
